@@ -63,14 +63,14 @@ def walk {K} [DecidableEq K] (ch : Nat → List Nat) (key : Nat → Option K) :
 /-! ### encoder -/
 
 /-- the encoder's DAG: plan nodes `2*i`, hidden pseudo-nodes `2*j+1` (one per assertion `j`) -/
-def encChildren (p : Plan) (t : Nat) : List Nat :=
+def encChildren (p : Plan) (redeem : Bool) (t : Nat) : List Nat :=
   if t % 2 = 1 then [] else
   match p[t / 2]? with
   | some (.injl c) | some (.injr c) | some (.take c) | some (.drop c) => [2 * c]
   | some (.comp a b) | some (.case a b) | some (.pair a b) => [2 * a, 2 * b]
   | some (.assertl a _) => [2 * a, t + 1]
   | some (.assertr _ b) => [t + 1, 2 * b]
-  | some (.disconnect a (some b)) => [2 * a, 2 * b]
+  | some (.disconnect a (some b)) => if redeem then [2 * a, 2 * b] else [2 * a]
   | some (.disconnect a none) => [2 * a]
   | _ => []
 
@@ -89,7 +89,7 @@ def natBits256 (n : Nat) : List Bool := (List.range 256).map fun i => (n >>> (25
 def bytesBits (bs : List Nat) : List Bool := Drv.bitsOfBytes bs
 
 /-- the wire node written for one item of the walk -/
-def wireOf (p : Plan) (o : WOut) : Option (WNode String) :=
+def wireOf {J : Type} (ofName : String → Option J) (p : Plan) (o : WOut) : Option (WNode J) :=
   if o.node % 2 = 1 then
     match p[o.node / 2]? with
     | some (.assertl _ h) | some (.assertr h _) => some (.hidden (natBits256 h))
@@ -109,19 +109,20 @@ def wireOf (p : Plan) (o : WOut) : Option (WNode String) :=
     | some (.assertr _ _), some i, some j => some (.case i j)
     | some (.pair _ _), some i, some j => some (.pair i j)
     | some (.disconnect _ (some _)), some i, some j => some (.disc i j)
+    | some (.disconnect _ (some _)), some i, none => some (.disc1 i)
     | some (.disconnect _ none), some i, _ => some (.disc1 i)
     | some (.fail e), _, _ => some (.fail (bytesBits e))
     | some (.word n bits), _, _ => some (.word n bits)
-    | some (.jet name), _, _ => some (.jet name)
+    | some (.jet name), _, _ => (ofName name).map .jet
     | _, _, _ => none
 
 def padToByte (bs : List Bool) : List Bool := bs ++ List.replicate ((8 - bs.length % 8) % 8) false
 
 /-- `to_vec_without_witness` / the program half of `to_vec_with_witness`, and the witness stream -/
-def encode (jc : JetCode String) (p : Plan) (an : Array Annot) (redeem : Bool)
-    (wit : Nat → Option (List Bool)) : Option (List Bool × List Bool) := do
-  let (st, _) := walk (encChildren p) (encKey p an redeem) (2 * p.size + 2) (2 * (p.size - 1)) ⟨#[], [], 0⟩
-  let nodes ← st.outs.toList.mapM (wireOf p)
+def encode {J : Type} (jc : JetCode J) (ofName : String → Option J) (p : Plan) (an : Array Annot)
+    (redeem : Bool) (wit : Nat → Option (List Bool)) : Option (List Bool × List Bool) := do
+  let (st, _) := walk (encChildren p redeem) (encKey p an redeem) (2 * p.size + 2) (2 * (p.size - 1)) ⟨#[], [], 0⟩
+  let nodes ← st.outs.toList.mapM (wireOf ofName p)
   let prog := encProgram jc nodes
   let wits := st.outs.toList.filterMap fun o =>
     if o.node % 2 = 0 then
@@ -140,7 +141,7 @@ deriving DecidableEq, Repr
 /-- `BitIter::close`: nothing but zero bits of the last byte may remain -/
 def closeOk (rest : List Bool) : Bool := rest.length < 8 && rest.all (· == false)
 
-def wireChildren (ns : Array (WNode String)) (i : Nat) : List Nat :=
+def wireChildren {J : Type} (ns : Array (WNode J)) (i : Nat) : List Nat :=
   match ns[i]? with
   | some (.injl c) | some (.injr c) | some (.take c) | some (.drop c) | some (.disc1 c) => [c]
   | some (.comp a b) | some (.case a b) | some (.pair a b) | some (.disc a b) => [a, b]
@@ -151,7 +152,7 @@ def bitsBytes (bs : List Bool) : List Nat := packBits bs
 
 /-- conversion of the decoded node list: hidden nodes only under `case`, never both, never the
 root, never repeated; `case` with a hidden child becomes an assertion -/
-def convert (ns : Array (WNode String)) : Except DErr Plan := do
+def convert {J : Type} (nameOf : J → String) (ns : Array (WNode J)) : Except DErr Plan := do
   let isHidden (i : Nat) : Option Nat := match ns[i]? with | some (.hidden h) => some (bitsNat h) | _ => none
   let need (i : Nat) : Except DErr Unit := if (isHidden i).isSome then .error .hidden else .ok ()
   let mut out : Array Node := #[]
@@ -180,7 +181,7 @@ def convert (ns : Array (WNode String)) : Except DErr Plan := do
           | some _, some _ => .error .bothHidden
         | .fail e => pure (Node.fail (bitsBytes e))
         | .hidden h => pure (Node.hidden (bitsNat h))
-        | .jet j => pure (Node.jet j)
+        | .jet j => pure (Node.jet (nameOf j))
         | .word n w => pure (Node.word n w) : Except DErr Node)
       match n with
       | .hidden h =>
@@ -193,7 +194,7 @@ def convert (ns : Array (WNode String)) : Except DErr Plan := do
 
 /-- the canonical-order check of `decode_expression`: the pointer-sharing post-order walk from the
 last node yields every node at its own index -/
-def canonicalOk (ns : Array (WNode String)) : Bool :=
+def canonicalOk {J : Type} (ns : Array (WNode J)) : Bool :=
   let (st, _) := walk (wireChildren ns) (fun i => some i) (ns.size + 1) (ns.size - 1) ⟨#[], [], 0⟩
   st.outs.size == ns.size && st.outs.toList.all fun o => o.node == o.index
 
@@ -219,7 +220,10 @@ def readWitnesses (p : Plan) (arrows : Array (BM4.Ty × BM4.Ty)) (bits : List Bo
   pure (acc.reverse, rest)
 
 structure Tables where
-  jc : JetCode String
+  J : Type
+  jc : JetCode J
+  nameOf : J → String
+  ofName : String → Option J
   jetTy : JetTypes
   jetCmr : String → Option Nat
   jetCost : String → Option Nat
@@ -236,7 +240,7 @@ def decodeRedeem (tb : Tables) (prog wit : List Bool) : Except DErr Decoded := d
   let ns := nodes.toArray
   if ns.size = 0 then throw .natural
   if !canonicalOk ns then throw .canonical
-  let plan ← convert ns
+  let plan ← convert tb.nameOf ns
   if plan.any (fun nd => match nd with | .disconnect _ none => true | _ => false) then throw .disconnect
   let arrows ← (match infer tb.jetTy plan true with
     | .ok a => pure a
@@ -254,5 +258,46 @@ def decodeRedeem (tb : Tables) (prog wit : List Bool) : Except DErr Decoded := d
     | _ => (an[i]?).map (·.ihr)
   if ihrs.eraseDups.length ≠ ihrs.length then throw .sharing
   pure ⟨plan, arrows, wits, an⟩
+
+/-- children in the commitment-time DAG: a disconnect node has its left child only -/
+def commitChildren (p : Plan) (i : Nat) : List Nat :=
+  match p[i]? with
+  | some (.disconnect a _) => [a]
+  | some nd => nd.children
+  | none => []
+
+/-- `CommitNode::decode`: node list, `close`, canonical order, conversion, inference of a 1 → 1
+program, and `is_shared_as::<MaxSharing>`: the walk under identity roots (nodes without one are
+never shared) visits the same nodes as the pointer walk -/
+def decodeCommit (tb : Tables) (prog : List Bool) : Except DErr (Plan × Array Nat) := do
+  let (nodes, rest) ← (match decProgram tb.jc prog with
+    | .ok x => pure x
+    | .error .eof => throw .eof
+    | .error .overflow => throw .natural
+    | .error .badIndex => throw .natural
+    | .error .jet => throw .jet : Except DErr _)
+  if !closeOk rest then throw .close
+  let ns := nodes.toArray
+  if ns.size = 0 then throw .natural
+  if !canonicalOk ns then throw .canonical
+  let plan ← convert tb.nameOf ns
+  let arrows ← (match infer tb.jetTy plan true with
+    | .ok a => pure a
+    | _ => throw .type : Except DErr _)
+  let an ← (match annots tb.jetCmr tb.jetCost plan arrows (fun _ => none) with
+    | some a => pure a
+    | none => throw .type : Except DErr _)
+  let key (i : Nat) : Option Nat := match an[i]? with
+    | some a => if a.unique then none else some a.ihr
+    | none => none
+  let root := plan.size - 1
+  let (s1, _) := walk (commitChildren plan) key (plan.size + 1) root ⟨#[], [], 0⟩
+  let (s2, _) := walk (commitChildren plan) (fun i => some i) (plan.size + 1) root ⟨#[], [], 0⟩
+  let same := (s1.outs.toList.zip s2.outs.toList).all fun (a, b) => a.node == b.node
+  if !same then throw .sharing
+  let cm ← (match cmrs tb.jetCmr plan with
+    | some c => pure c
+    | none => throw .jet : Except DErr _)
+  pure (plan, cm)
 
 end Prog
